@@ -37,6 +37,9 @@ func (self ValueObject) Display() (string, *Interrupt) {
 }
 
 func (self ValueObject) IsEqual(other Value) (bool, *Interrupt) {
+	if other.Kind() != self.Kind() {
+		return false, nil // values of different kinds (elements of an `[any]`, content of a `{ ? }`) are not equal
+	}
 	otherObj := other.(ValueObject)
 	if len(self.FieldsInternal) != len(otherObj.FieldsInternal) {
 		return false, nil // the loop below only shows self ⊆ other
